@@ -7,9 +7,15 @@ import vlib
 
 
 def run_table(ctx, module, executor, judge, driver="fn", env=None, cfg=None, nontrivial=None, sample_every=None,
-              timeout=900, extra_args=()):
+              timeout=900, extra_args=(), select=None):
     cases, r = ctx.tlc_table("fn/" + module, env=env, cfg=cfg)
     cpath = os.path.join(ctx.tmp, module + "_cases.json")
+    total = len(cases)
+    if select is not None:
+        cases = select(cases)
+        cpath = os.path.join(ctx.tmp, module + "_selected.json")
+        json.dump(cases, open(cpath, "w"))
+        ctx.cov["table_size"] = total
     opath = os.path.join(ctx.tmp, module + "_obs.ndjson")
     ctx.go_run(driver, ["-name", executor, "-cases", cpath, "-out", opath] + list(extra_args), timeout=timeout)
     obs = vlib.read_ndjson(opath)
@@ -29,8 +35,70 @@ def run_table(ctx, module, executor, judge, driver="fn", env=None, cfg=None, non
             key, desc = bad
             ctx.violation(key, desc, {"case": c, "observed": o, "module": module, "executor": executor})
     ctx.traces += len(obs)
-    ctx.exhaustive = True
+    ctx.exhaustive = (len(cases) == total)
     return cases, obs
+
+
+def seeded_sample(ctx, cases, always, n):
+    """all cases satisfying `always` plus a seeded random sample of n others"""
+    import random
+    rng = random.Random(ctx.seed * 7919 + 13)
+    must = [c for c in cases if always(c)]
+    rest = [c for c in cases if not always(c)]
+    rng.shuffle(rest)
+    return must + rest[:n]
+
+
+def _signed_dist(c):
+    i = c["in"]
+    return ((i["claimed"] != i["signer"]) + (i["sctx"] != i["vctx"]) + (i["sbody"] != i["cbody"]) + (i["sht"] != i["cht"]) +
+            (i["sig"] != "intact") + (i["pk"] == "garbage"))
+
+
+def _signed(ctx, kind):
+    ctx.assumptions = ["ideal hash / signature (Dolev-Yao) in SymSigned.tla; real Ed25519 keys, real hashes and seeded byte-level tampering in the executor",
+                       "random wire bytes are covered by C40, not here"]
+    ctx.rule = ("cases = TLC-enumerated tuples (signer, signed ctx/hash type/body, claimed sender, carried body/hash type, signature class, "
+                "embedded key class, verifier ctx); quick tier = all cases within one tampering of authentic + seeded sample; "
+                "non-trivial = cases at tampering distance 0..2 from an authentic message")
+    full = ctx.tier == "thorough"
+
+    def select(cases):
+        cs = [c for c in cases if c["in"]["kind"] == kind]
+        return cs if full else seeded_sample(ctx, cs, lambda c: _signed_dist(c) <= 1, 4000)
+
+    def judge(c, o):
+        i, e = c["in"], c["out"]
+        tag = "%s:%s" % (kind, "+".join(k for k, bad in (("claimed", i["claimed"] != i["signer"]), ("ctx", i["sctx"] != i["vctx"]),
+                                                           ("body", i["sbody"] != i["cbody"]), ("ht", i["sht"] != i["cht"]),
+                                                           ("sig-" + i["sig"], i["sig"] != "intact"), ("pk", i["pk"] == "garbage")) if bad) or "authentic")
+        if o.get("panic"):
+            return ("panic:" + tag, "verification panicked: %s" % o["panic"])
+        if kind == "msg":
+            for wr, acc in o["res"].items():
+                if wr.endswith("-wrongid"):
+                    return ("wrongid:" + tag, "verification returned a peer id different from the claimed sender (%s)" % wr)
+                if acc and not e["accept"]:
+                    return ("accepted:%s:%s" % (wr, tag), "non-authentic signed message accepted by %s verifier: %s" % (wr, i))
+                if not acc and e["accept"]:
+                    return ("rejected:%s:%s" % (wr, tag), "authentic signed message rejected by %s verifier: %s" % (wr, i))
+        else:
+            if o["accept"] != e["accept"]:
+                return (("verified:" if o["accept"] else "rejected:") + tag, "VerifyWithPublic=%s but the spec says %s for %s" % (o["accept"], e["accept"], i))
+            if not e["valid"] and o["valid"]:
+                return ("validate:" + tag, "Signature.Validate accepted an invalid signature object: %s" % i)
+        return None
+
+    run_table(ctx, "SymSigned", "signed", judge, select=select, nontrivial=lambda c, o: _signed_dist(c) <= 2, timeout=1800)
+
+
+def c01(ctx):
+    _signed(ctx, "msg")
+
+
+def c02(ctx):
+    _signed(ctx, "sig")
+
 
 
 def c37(ctx):
@@ -49,3 +117,165 @@ def c37(ctx):
         return None
 
     run_table(ctx, "Equiv", "equiv", judge, nontrivial=lambda c, o: c["dist"])
+
+
+def _codec(ctx, prop):
+    ctx.assumptions = ["abstract codec grammar of SymCodec.tla; each abstract case is instantiated with several seeded keys / byte positions by the executor"]
+    ctx.rule = ("cases = abstract codec cases enumerated by TLC (SymCodec.tla), each replayed with several seeded concrete instances; "
+                "non-trivial = every case (each is a distinct class of well-formed or malformed input)")
+
+    def select(cases):
+        return [c for c in cases if c["in"]["prop"] == prop]
+
+    def judge(c, o):
+        i, e = c["in"], c["out"]
+        tag = ":".join(str(i[k]) for k in sorted(i) if k not in ("prop",))
+        if o.get("panic"):
+            return ("panic:" + tag, "panic: %s on %s" % (o["panic"], i))
+        if i["kind"] == "pair":
+            if o["same"] != e["same"]:
+                return ("id-injectivity:" + tag, "peer IDs of keys %s/%s equal=%s" % (i["a"], i["b"], o["same"]))
+            if o["matches"] != e["same"] or o["matchespriv"] != e["same"]:
+                return ("id-matches:" + tag, "MatchesPublicKey/PrivateKey=%s/%s for keys %s/%s" % (o["matches"], o["matchespriv"], i["a"], i["b"]))
+            if o["roundtrip"] is not True:
+                return ("id-roundtrip:" + tag, "peer ID does not round-trip through ExtractPublicKey / base58 / bytes")
+        elif i["kind"] == "bytes":
+            if e["parse"] != "dc" and o["parse"] != e["parse"]:
+                return ("id-parse:" + tag, "parsing a %s multihash gave %s, spec says %s" % (tag, o["parse"], e["parse"]))
+            if o["parse"] == "inconsistent":
+                return ("id-parse-inconsistent:" + tag, "IDB58Decode / IDFromBytes / ParsePeerID disagree")
+            if o["extract"] != e["extract"]:
+                return ("id-extract:" + tag, "ExtractPublicKey gave %s, spec says %s" % (o["extract"], e["extract"]))
+        elif i["kind"] == "key":
+            for api, v in o.items():
+                if api in ("i", "panic"):
+                    continue
+                if e["accept"]:
+                    if v != "key-eq":
+                        return ("key-roundtrip:%s:%s" % (api, tag), "%s returned %s for a well-formed %s key encoding" % (api, v, i["which"]))
+                else:
+                    allowed = {"error"}
+                    if i["mal"] == "empty" and api != "crypto":
+                        allowed.add("nil")       # "no key specified" is documented for empty input
+                    if i["mal"] == "nottext" and api in ("keypem", "parsekeypem"):
+                        allowed.add("nil")       # keypem: "if none is found returns nil"
+                    if v not in allowed:
+                        return ("key-malformed:%s:%s" % (api, tag), "%s returned %s for malformed input class %s" % (api, v, i["mal"]))
+        else:
+            if o["verify"] != e["verify"]:
+                return ("hash-verify:" + tag, "VerifyData ok=%s, spec says %s" % (o["verify"], e["verify"]))
+            if e["valid"] != "dc" and o["valid"] != e["valid"]:
+                return ("hash-valid:" + tag, "Hash.Validate gave %s, spec says %s" % (o["valid"], e["valid"]))
+            if e["valid"] == "accept" and o["roundtrip"] is not True:
+                return ("hash-roundtrip:" + tag, "hash does not survive binary/base58/JSON encoding")
+            if o["cmpbad"] is not False:
+                return ("hash-compare:" + tag, "CompareHash is wrong")
+        return None
+
+    run_table(ctx, "SymCodec", "codec", judge, select=select)
+    ctx.exhaustive = True
+
+
+def c10(ctx):
+    _codec(ctx, "C10")
+
+
+def c11(ctx):
+    _codec(ctx, "C11")
+
+
+def c15(ctx):
+    _codec(ctx, "C15")
+
+
+def c12(ctx):
+    ctx.assumptions = ["ideal public-key encryption (SymEnc.tla); byte-level mutations are sampled per ciphertext region (seeded positions), not exhaustive"]
+    ctx.rule = ("cases = (key, ctx, message class, ciphertext mutation class incl. every boundary truncation, decrypting key, decrypting ctx) "
+                "enumerated by TLC, each replayed 1-3 times with seeded keys/positions; non-trivial = cases where exactly one of key/ctx/ciphertext deviates or none")
+
+    def judge(c, o):
+        i, e = c["in"], c["out"]
+        tag = "%s:%s:%s" % (i["mut"], "samekey" if i["k"] == i["k2"] else "otherkey", "samectx" if i["ctx"] == i["c2"] else "otherctx")
+        if o["res"] == "panic":
+            return ("panic:%s:%s" % (i["mut"], i["m"]), "decryption panicked: %s (%s)" % (o["panic"], i))
+        if o["res"] == "other-plaintext":
+            return ("other-plaintext:" + tag, "decryption returned a different plaintext: %s" % i)
+        if e["ok"] and o["res"] != "ok":
+            return ("roundtrip:" + i["m"], "decrypting an unmodified ciphertext with the right key and context failed: %s" % i)
+        if not e["ok"] and o["res"] == "ok":
+            return ("accepted:" + tag, "decryption succeeded although key/context/ciphertext differ: %s" % i)
+        return None
+
+    def nontriv(c, o):
+        i = c["in"]
+        return (i["k"] != i["k2"]) + (i["ctx"] != i["c2"]) + (i["mut"] != "none") <= 1
+
+    run_table(ctx, "SymEnc", "enc", judge, nontrivial=nontriv, timeout=1800)
+
+
+def c13(ctx):
+    ctx.assumptions = ["derivation modelled as a free injective function (SymDerive.tla); distinctness is demanded for output lengths >= 16 bytes"]
+    ctx.rule = ("cases = all ordered pairs of (key, context incl. empty, salt incl. nil/empty) x output length, enumerated by TLC; "
+                "non-trivial = pairs that differ in exactly one component or are equal")
+
+    def judge(c, o):
+        i, e = c["in"], c["out"]
+        for side in ("a", "b"):
+            if str(o[side]).startswith("panic"):
+                x = i[side]
+                return ("panic:ctx=%s:salt=%s" % (x["ctx"] or "empty", x["salt"]), "DeriveKey panicked: %s for %s" % (o[side], x))
+        if str(o.get("ed", "")).startswith("panic"):
+            return ("panic:ed25519", "DeriveEd25519Key panicked: %s" % o["ed"])
+        if o["a"] == "ok" and not o["stable"]:
+            return ("nondeterministic", "two derivations with the same inputs differ: %s" % i["a"])
+        if o["a"] == "ok" and o["b"] == "ok":
+            if e["equal"] and not o["equal"]:
+                return ("not-equal:salt=%s/%s" % (i["a"]["salt"], i["b"]["salt"]), "equal inputs gave different outputs: %s" % i)
+            if not e["equal"] and o["equal"] and i["len"] >= 16:
+                d = [k for k in ("k", "ctx", "salt") if i["a"][k] != i["b"][k]]
+                return ("collision:" + "+".join(d), "different inputs gave the same %d-byte output: %s" % (i["len"], i))
+            if "ed" in o and o["ed"] in ("equal", "differ") and (o["ed"] == "equal") != e["equal"]:
+                return ("ed25519-separation", "derived Ed25519 keys equal=%s but inputs equal=%s: %s" % (o["ed"], e["equal"], i))
+        return None
+
+    def nontriv(c, o):
+        i = c["in"]
+        return sum(i["a"][k] != i["b"][k] for k in ("k", "ctx", "salt")) <= 1
+
+    run_table(ctx, "SymDerive", "derive", judge, nontrivial=nontriv, timeout=1800)
+
+
+def c14(ctx):
+    ctx.assumptions = ["trusted base: filippo.io/edwards25519 point decoding and cofactor multiplication ([8]P = identity) as the definition of small order",
+                       "the classifier is bound to the model by transition coverage (every position x equality class for every entry), not by proof over all 2^256 inputs"]
+    ctx.rule = ("cases = every blacklist entry with one position replaced by each equality class / bit flip, and every prefix/suffix hybrid of two "
+                "entries (TLC checks the transcribed fold equals the declarative definition on all of them), both sign bits; plus seeded key pairs for "
+                "X25519 symmetry; non-trivial = all")
+
+    def judge(c, o):
+        i, e = c["in"], c["out"]
+        tag = "%s:e%s:p%s" % (i["kind"], i["e"], i["p"])
+        if o.get("panic"):
+            return ("panic:" + tag, "classifier panicked: %s" % o["panic"])
+        for s in ("s0", "s1"):
+            r = o[s]
+            if r["low"] != e["low"]:
+                return ("classifier:%s:%s" % (s, tag), "IsEdLowOrder=%s, spec says %s for %s (sign %s)" % (r["low"], e["low"], i["bytes"], s))
+            if e["low"] and r["oracle"] == "good":
+                raise vlib.Infra("blacklist in LowOrder.tla contains an encoding that is not of small order: %s" % i["bytes"])
+            refuse = r["oracle"] != "good"
+            if r["conv"] == refuse:
+                return ("conversion:%s:%s" % (r["oracle"], tag), "PublicKeyToCurve25519 ok=%s but the encoding is %s: %s" % (r["conv"], r["oracle"], i["bytes"]))
+        return None
+
+    run_table(ctx, "LowOrder", "loworder", judge, timeout=1800)
+    # shared-secret symmetry over seeded key pairs
+    op = os.path.join(ctx.tmp, "x25519.ndjson")
+    ctx.go_run("fn", ["-name", "x25519sym", "-cases", "/dev/null", "-out", op])
+    r = vlib.read_ndjson(op)[0]
+    ctx.evaluations += r["pairs"]
+    ctx.cov["x25519_pairs"] = r["pairs"]
+    if r["panic"]:
+        ctx.violation("x25519:panic", "conversion panicked: %s" % r["panic"], r)
+    elif r["bad"]:
+        ctx.violation("x25519:asymmetric", "%d of %d key pairs give different shared secrets / inconsistent conversions" % (r["bad"], r["pairs"]), r)
